@@ -69,6 +69,9 @@ def run(ctx, col, tier):
              exhaustive=True, shape=True)
     col.rule("R-FWD", "Tree.traverse wraps both callbacks with the same node-wrapper and forwards "
              "them; Node.traverse forwards its own index as root", floor=3, shape=True)
+    col.rule("R-ORDER", "no traversal path depends on the node numbering: no loop over rows in storage "
+             "order reads, at the row's parent, a container it fills in that loop (a 'parents are listed "
+             "first' shortcut); zero expected, positive examples kept", floor=1)
     col.assumptions += ["list.append/pop are LIFO; dict preserves insertion order",
                         "callbacks supplied by users are outside the analysed program"]
     col.not_decided += ["values produced by the callbacks at run time"]
@@ -76,278 +79,173 @@ def run(ctx, col, tier):
     for q in ENTRIES:
         recursion_free(ctx, col, "R-CG", [q], f"recursion-free from {q.split('.', 2)[-1]}")
 
+    from ..rules import orderdep
+    col.guard(orderdep.check, ctx, col, "R-ORDER", (BASE, "swcgeom.core.tree"), "traversal code")
     k = repo.get_def(f"{BASE}._traverse_dfs")
     col.guard(frame_discipline, ctx, col, k)
     col.guard(forwarders, ctx, col)
 
 
 def frame_discipline(ctx, col, k):
+    """The explicit-stack kernel, obligation by obligation.  Every obligation is a statement of a
+    known form; all forms are matched under ONE consistent renaming of the kernel's locals
+    (sa/match.find_group), so the check is indifferent to renamed locals and statement order
+    within a block, reports a statement that is present but says something else (a different
+    constant, operand role, argument) as a violation, and anything it cannot recognise as
+    UNRESOLVED."""
     repo = ctx.repo
     R = "R-FRAME"
     q = k.qualname
-    whiles = [n for n in own_nodes(k) if isinstance(n, ast.While)]
-    if len(whiles) != 1:
-        raise AnalysisError("anchor-vanished: the single work-list loop of _traverse_dfs")
-    loop = whiles[0]
-    # stack variable: popped in the loop
-    pops = [n for n in ast.walk(loop) if isinstance(n, ast.Call) and isinstance(n.func, ast.Attribute)
-            and n.func.attr == "pop" and isinstance(n.func.value, ast.Name)
-            and n.func.value.id in names_in(loop.test)]
-    if len(pops) != 1:
-        raise AnalysisError("anchor-vanished: single `stack.pop()` of the loop variable")
-    pop = pops[0]
-    stack = pop.func.value.id
-    col.check(not pop.args and not pop.keywords, R, q, k.loc(pop), "frames are taken LIFO",
-              norm_src(pop), f"`{norm_src(pop)}` does not pop the most recent frame", stmt="pop")
-    pop_stmt = repo.parent(pop)
-    if not (isinstance(pop_stmt, ast.Assign) and isinstance(pop_stmt.targets[0], ast.Tuple)
-            and len(pop_stmt.targets[0].elts) == 2):
-        raise AnalysisError("anchor-vanished: `node, flag = stack.pop()`")
-    node_v, flag_v = [e.id for e in pop_stmt.targets[0].elts]
-    # arms
-    arms = [s for s in loop.body if isinstance(s, ast.If) and flag_v in names_in(s.test)]
-    if len(arms) != 1:
-        raise AnalysisError("anchor-vanished: the enter/leave branch on the frame flag")
-    arm = arms[0]
-    neg = isinstance(arm.test, ast.UnaryOp) and isinstance(arm.test.op, ast.Not)
-    enter_body, leave_body = (arm.orelse, arm.body) if neg else (arm.body, arm.orelse)
     params = k.params
     if "enter" not in params or "leave" not in params or "root" not in params:
         raise AnalysisError("anchor-vanished: enter/leave/root parameters of _traverse_dfs")
+    fixed = ("enter", "leave", "root", "topology")
+    items = [
+        ("work list starts with the enter frame of the start node only",
+         ["stack = [(root, True)]", "stack: list[tuple[int, bool]] = [(root, True)]"], "init"),
+        ("the start node receives None", ["params = {root: None}"], "start-none"),
+        ("frames are taken LIFO", ["idx, is_enter = stack.pop()"], "pop"),
+        ("enter receives the value handed down by the parent (taken out of the hand-down map)", ["pre = params.pop(idx)"], "pre"),
+        ("exactly the call enter(node, handed-down value); a missing enter callback yields None",
+         ["cur = enter(idx, pre) if enter is not None else None", "cur = None if enter is None else enter(idx, pre)"], "enter-call"),
+        ("the node's leave frame is pushed", ["stack.append((idx, False))"], "leave-push"),
+        ("one enter frame per child", ["stack.append((child, True))"], "child-push"),
+        ("each child is handed the value this node's enter call returned", ["params[child] = cur"], "hand-down"),
+        ("children are looked up under the node's own id", ["for child in children_map.get(idx, []): pass"], "child-key-loop") if False else
+        ("leave collects one popped value per child of this node, in the child list's order",
+         ["children = [vals.pop(i) for i in children_map.get(idx, [])]"], "collect"),
+        ("leave receives (node, collected child values) and its result is stored under the node; a missing leave callback yields None",
+         ["vals[idx] = leave(idx, children) if leave is not None else None", "vals[idx] = None if leave is None else leave(idx, children)"], "leave-call"),
+        ("returns the start node's value", ["return vals[root]"], "return"),
+    ]
+    # the map-building loop has its own locals (the kernel reuses a name there): matched on its own
+    map_items = [("children map: parent id (2nd topology component) -> child ids (1st component)",
+                  ["children_map[pid].append(idx)", "children_map.setdefault(pid, []).append(idx)"], "children-map")]
+    col.text_group(R, q, k, map_items, fixed=fixed)
+    res = col.text_group(R, q, k, items, fixed=fixed)
+    by = {it[2]: r for it, r in zip(items, res)}
+    node_of = {key: (r.facts.get("node") if r.facts else None) for key, r in by.items()}
+    # locate nodes again for order obligations
+    from .. import match
+    found = match.find_group(k.node.body, [it[1] for it in items], fixed)
+    at = {it[2]: f for it, f in zip(items, found)}
+    at["children-map"] = match.find_group(k.node.body, [map_items[0][1]], fixed)[0]
 
-    def calls_of(name):
-        return [n for n in own_nodes(k) if isinstance(n, ast.Call) and isinstance(n.func, ast.Name)
-                and n.func.id == name]
+    def same(key):
+        return at[key][0] == match.SAME
+    # the children-map loop unpacks (id, parent id) in that order from zip(*topology)
+    if same("children-map"):
+        n = at["children-map"][1]
+        loop = repo.parent(n)
+        while loop is not None and not isinstance(loop, ast.For):
+            loop = repo.parent(loop)
+        app = n if isinstance(n, ast.Call) else next((x for x in ast.walk(n) if isinstance(x, ast.Call)), None)
+        ok = None
+        if isinstance(loop, ast.For) and isinstance(loop.target, ast.Tuple) and len(loop.target.elts) == 2 \
+                and norm_src(loop.iter) == "zip(*topology)" and app is not None:
+            a, b = [e.id for e in loop.target.elts]
+            key = app.func.value
+            keyname = norm_src(key.slice) if isinstance(key, ast.Subscript) else (norm_src(key.args[0]) if isinstance(key, ast.Call) and key.args else None)
+            val = norm_src(app.args[0]) if app.args else None
+            if keyname in (a, b) and val in (a, b):
+                ok = (keyname == b and val == a)
+        if ok is None:
+            col.unresolved(R, q, k.loc(n), "children map is keyed by the parent id and lists the child ids", "loop shape not recognised", stmt="map-roles")
+        else:
+            col.check(ok, R, q, k.loc(n), "children map is keyed by the parent id and lists the child ids",
+                      norm_src(loop.target), f"`for {norm_src(loop.target)} in zip(*topology)`: the map is keyed by the first component "
+                      f"(the node's own id) instead of the second (its parent's)", stmt="map-roles", definite=True)
+            # every row is entered: a conditional skip that depends on the start node drops rows of its subtree
+            skips = [x for x in ast.walk(loop) if isinstance(x, (ast.If, ast.Continue, ast.Break))]
+            dep_root = any(isinstance(y, ast.Name) and y.id == "root" for x in skips for y in ast.walk(x))
+            if dep_root:
+                col.bad(R, q, k.loc(skips[0]), "every row enters the children map",
+                        f"`{norm_src(skips[0])[:80]}` drops rows depending on the start node: ids are not ordered along the tree, so nodes "
+                        f"of the start node's subtree can be lost", stmt="map-all", definite=True)
+            elif skips:
+                col.unresolved(R, q, k.loc(skips[0]), "every row enters the children map", f"conditional `{norm_src(skips[0])[:60]}` in the map loop", stmt="map-all")
+            else:
+                col.ok(R, q, k.loc(loop), "every row enters the children map", stmt="map-all")
+    # order: the leave frame is pushed below the child frames; enter is called before the children are pushed
+    if same("leave-push") and same("child-push") and same("enter-call"):
+        lp, cp, ec = at["leave-push"][1], at["child-push"][1], at["enter-call"][1]
 
-    def within(node, body):
-        return any(node is x for s in body for x in ast.walk(s))
+        def stmt_of(n):
+            while n is not None and not isinstance(n, ast.stmt):
+                n = repo.parent(n)
+            return n
 
-    def in_inner_loop(node, body):
-        for s in body:
-            for x in ast.walk(s):
-                if isinstance(x, (ast.For, ast.While, ast.ListComp, ast.GeneratorExp, ast.DictComp,
-                                  ast.SetComp)) and any(node is y for y in ast.walk(x)) and x is not node:
-                    return True
-        return False
-
-    # initial frame
-    init = [n for n in own_nodes(k) if isinstance(n, (ast.Assign, ast.AnnAssign))
-            and stack in [getattr(t, "id", None) for t in
-                          (n.targets if isinstance(n, ast.Assign) else [n.target])]]
-    ok = len(init) == 1 and isinstance(init[0].value, ast.List) and len(init[0].value.elts) == 1 \
-        and isinstance(init[0].value.elts[0], ast.Tuple) \
-        and norm_src(init[0].value.elts[0].elts[0]) == "root" \
-        and isinstance(init[0].value.elts[0].elts[1], ast.Constant) \
-        and bool(init[0].value.elts[0].elts[1].value) is True
-    col.check(ok, R, q, k.loc(init[0]) if init else k.loc(), "work list starts with the enter "
-              "frame of the start node only", norm_src(init[0]) if init else "",
-              "initial work list is not [(root, enter)]", stmt="init")
-
-    # enter call
-    ec = calls_of("enter")
-    ok = len(ec) == 1 and within(ec[0], enter_body) and not in_inner_loop(ec[0], enter_body)
-    col.check(ok, R, q, k.loc(ec[0]) if ec else k.loc(), "exactly one enter(...) call site, in "
-              "the enter arm, outside the child loop", f"{len(ec)} site(s)",
-              f"{len(ec)} enter call site(s) / not once per frame", stmt="enter-site")
-    lc = calls_of("leave")
-    ok = len(lc) == 1 and within(lc[0], leave_body) and not in_inner_loop(lc[0], leave_body)
-    col.check(ok, R, q, k.loc(lc[0]) if lc else k.loc(), "exactly one leave(...) call site, in "
-              "the leave arm, outside loops", f"{len(lc)} site(s)",
-              f"{len(lc)} leave call site(s) / not once per frame", stmt="leave-site")
-    if len(ec) != 1 or len(lc) != 1:
-        return
-    ecall, lcall = ec[0], lc[0]
-
-    # enter args: (node, value popped from params[node])
-    pre = None
-    for s in enter_body:
-        if isinstance(s, ast.Assign) and isinstance(s.value, ast.Call) \
-                and isinstance(s.value.func, ast.Attribute) and s.value.func.attr == "pop" \
-                and norm_src(s.value.args[0] if s.value.args else s.value) == node_v:
-            pre = (s.targets[0].id, s.value.func.value.id)
-    ok = pre is not None and len(ecall.args) == 2 and norm_src(ecall.args[0]) == node_v \
-        and norm_src(ecall.args[1]) == pre[0]
-    col.check(ok, R, q, k.loc(ecall), "enter receives (node, value handed down by the parent)",
-              norm_src(ecall), f"`{norm_src(ecall)}` does not pass the node and its parent's value",
-              stmt="enter-args")
-    params_map = pre[1] if pre else None
-    # result of enter -> cur
-    est = repo.parent(ecall)
-    while est is not None and not isinstance(est, ast.stmt):
-        est = repo.parent(est)
-    cur = est.targets[0].id if isinstance(est, ast.Assign) and isinstance(est.targets[0], ast.Name) else None
-    # start node gets None
-    pinit = [n for n in own_nodes(k) if isinstance(n, ast.Assign) and isinstance(n.targets[0], ast.Name)
-             and n.targets[0].id == params_map]
-    ok = len(pinit) == 1 and isinstance(pinit[0].value, ast.Dict) and len(pinit[0].value.keys) == 1 \
-        and norm_src(pinit[0].value.keys[0]) == "root" \
-        and isinstance(pinit[0].value.values[0], ast.Constant) and pinit[0].value.values[0].value is None
-    col.check(ok, R, q, k.loc(pinit[0]) if pinit else k.loc(), "the start node receives None",
-              norm_src(pinit[0]) if pinit else "", "start value is not {root: None}", stmt="start-none")
-
-    # leave frame push dominates child pushes; children get cur
-    pushes = [n for s in enter_body for n in ast.walk(s) if isinstance(n, ast.Call)
-              and isinstance(n.func, ast.Attribute) and n.func.attr == "append"
-              and isinstance(n.func.value, ast.Name) and n.func.value.id == stack]
-    leave_push = [p for p in pushes if p.args and isinstance(p.args[0], ast.Tuple)
-                  and norm_src(p.args[0].elts[0]) == node_v
-                  and isinstance(p.args[0].elts[1], ast.Constant) and not p.args[0].elts[1].value]
-    child_loops = [s for s in enter_body if isinstance(s, ast.For)]
-    ok = len(leave_push) == 1 and len(child_loops) == 1
-    child_iter = None
-    if ok:
-        cl = child_loops[0]
-        child_iter = cl.iter
-        cv = cl.target.id if isinstance(cl.target, ast.Name) else None
-        cpush = [p for p in pushes if any(p is x for x in ast.walk(cl))]
-        # position in the arm: leave push statement precedes the loop statement
-        idx_push = next(i for i, s in enumerate(enter_body) if any(leave_push[0] is x for x in ast.walk(s)))
-        idx_loop = enter_body.index(cl)
-        idx_enter = next(i for i, s in enumerate(enter_body) if any(ecall is x for x in ast.walk(s)))
-        ok_order = idx_push < idx_loop and not in_inner_loop(leave_push[0], enter_body)
-        col.check(ok_order, R, q, k.loc(leave_push[0]), "the node's leave frame is pushed before "
-                  "(below) all of its child frames", "", "child frames would be popped after the "
-                  "node's leave frame: leave runs before the children", stmt="push-order")
-        ok_child = len(cpush) == 1 and isinstance(cpush[0].args[0], ast.Tuple) \
-            and norm_src(cpush[0].args[0].elts[0]) == cv \
-            and isinstance(cpush[0].args[0].elts[1], ast.Constant) and cpush[0].args[0].elts[1].value is True
-        col.check(ok_child, R, q, k.loc(cl), "one enter frame per child", norm_src(cl.iter),
-                  "child loop does not push exactly one (child, enter) frame per child", stmt="child-push")
-        hand = [s for s in cl.body if isinstance(s, ast.Assign) and isinstance(s.targets[0], ast.Subscript)
-                and norm_src(s.targets[0].value) == params_map and norm_src(s.targets[0].slice) == cv]
-        ok_hand = len(hand) == 1 and cur is not None and norm_src(hand[0].value) == cur and idx_enter < idx_loop
-        col.check(ok_hand, R, q, k.loc(hand[0]) if hand else k.loc(cl), "each child is handed the "
-                  "value this node's enter call returned", norm_src(hand[0]) if hand else "",
-                  "children do not receive the result of their parent's enter call", stmt="hand-down")
+        def block_and_index(n):
+            st = stmt_of(n)
+            par = repo.parent(st)
+            for f in ("body", "orelse", "finalbody"):
+                b = getattr(par, f, None)
+                if isinstance(b, list) and st in b:
+                    return b, b.index(st), st
+            return None, None, st
+        lb, li, lst = block_and_index(lp)
+        cl = stmt_of(cp)
+        while cl is not None and not isinstance(cl, (ast.For, ast.While)):
+            cl = repo.parent(cl)
+        cb, ci, _ = block_and_index(cl) if cl is not None else (None, None, None)
+        eb, ei, _ = block_and_index(ec)
+        if lb is not None and lb is cb and lb is eb:
+            col.check(li < ci, R, q, k.loc(lp), "the node's leave frame is pushed before (below) all of its child frames", "",
+                      "the leave frame is pushed after the child frames: with LIFO frames leave would run before the children",
+                      stmt="push-order", definite=True)
+            col.check(ei < ci, R, q, k.loc(ec), "enter is called before the children are scheduled", "",
+                      "children are scheduled before this node's enter call: they cannot receive its result", stmt="enter-order", definite=True)
+        else:
+            col.unresolved(R, q, k.loc(lp), "the node's leave frame is pushed before (below) all of its child frames", "statements are not in one block", stmt="push-order")
+        # the child loop iterates the children of this node (same expression as the leave arm collects)
+        if cl is not None and isinstance(cl, ast.For) and same("collect"):
+            comp = at["collect"][1]
+            lc = next((x for x in ast.walk(comp) if isinstance(x, ast.ListComp)), None)
+            if lc is not None:
+                col.check(norm_src(cl.iter) == norm_src(lc.generators[0].iter), R, q, k.loc(cl),
+                          "the enter arm schedules and the leave arm collects the same child list", norm_src(cl.iter),
+                          f"enter arm iterates `{norm_src(cl.iter)}`, leave arm collects over `{norm_src(lc.generators[0].iter)}`",
+                          stmt="same-children", definite=True)
+    # one call site each
+    for nm in ("enter", "leave"):
+        calls = [n for n in own_nodes(k) if isinstance(n, ast.Call) and isinstance(n.func, ast.Name) and n.func.id == nm]
+        col.check(len(calls) == 1, R, q, k.loc(calls[0]) if calls else k.loc(), f"exactly one {nm}(...) call site per frame",
+                  f"{len(calls)} site(s)", f"{len(calls)} call sites of `{nm}`: a node is {nm}ed more or less than once",
+                  stmt=f"{nm}-site", definite=len(calls) != 1 and len(calls) > 1)
+    # the loop runs until the work list is empty
+    whiles = [n for n in own_nodes(k) if isinstance(n, ast.While)]
+    if len(whiles) == 1:
+        w = whiles[0]
+        early = [x for x in ast.walk(w) if isinstance(x, (ast.Break, ast.Return))]
+        if early:
+            col.bad(R, q, k.loc(early[0]), "the loop runs until the work list is empty (no early exit)",
+                    f"`{norm_src(early[0])}` leaves the loop with frames still pending: their nodes are never visited / left",
+                    stmt="loop-exit", definite=True)
+        else:
+            col.ok(R, q, k.loc(w), "the loop runs until the work list is empty (no early exit)", norm_src(w.test), stmt="loop-exit")
     else:
-        col.bad(R, q, k.loc(arm), "enter arm pushes one leave frame and loops once over children",
-                f"{len(leave_push)} leave pushes, {len(child_loops)} child loops", stmt="push-shape")
-
-    # leave arm: children values popped from vals for the same child list
-    comp = None
-    for s in leave_body:
-        for n in ast.walk(s):
-            if isinstance(n, ast.ListComp) and isinstance(n.elt, ast.Call) \
-                    and isinstance(n.elt.func, ast.Attribute) and n.elt.func.attr == "pop":
-                comp = n
-    ok = comp is not None and child_iter is not None and \
-        norm_src(comp.generators[0].iter) == norm_src(child_iter) and not comp.generators[0].ifs \
-        and norm_src(comp.elt.args[0]) == norm_src(comp.generators[0].target)
-    vals_map = comp.elt.func.value.id if comp is not None and isinstance(comp.elt.func.value, ast.Name) else None
-    col.check(ok, R, q, k.loc(comp) if comp else k.loc(arm), "leave collects one popped value per "
-              "child, from the same child list the enter arm pushed, in order",
-              norm_src(comp) if comp else "", "the child values handed to leave are not exactly "
-              "those of the node's children", stmt="collect")
-    cst = repo.parent(comp) if comp is not None else None
-    cname = cst.targets[0].id if isinstance(cst, ast.Assign) and isinstance(cst.targets[0], ast.Name) else None
-    ok = len(lcall.args) == 2 and norm_src(lcall.args[0]) == node_v and norm_src(lcall.args[1]) == cname
-    col.check(ok, R, q, k.loc(lcall), "leave receives (node, collected child values)",
-              norm_src(lcall), f"`{norm_src(lcall)}`", stmt="leave-args")
-    lst = repo.parent(lcall)
-    while lst is not None and not isinstance(lst, ast.stmt):
-        lst = repo.parent(lst)
-    ok = isinstance(lst, ast.Assign) and isinstance(lst.targets[0], ast.Subscript) \
-        and norm_src(lst.targets[0].value) == vals_map and norm_src(lst.targets[0].slice) == node_v
-    col.check(ok, R, q, k.loc(lst) if lst is not None else k.loc(), "the node's value is stored "
-              "under the node", norm_src(lst.targets[0]) if ok else "",
-              "leave result is not stored as vals[node]", stmt="store")
-    # None-callback handling keeps the frame discipline: `f(...) if f is not None else None`
-    for nm, call in (("enter", ecall), ("leave", lcall)):
-        par = repo.parent(call)
-        ok = isinstance(par, ast.IfExp) and par.body is call and norm_src(par.test) == f"{nm} is not None" \
-            and isinstance(par.orelse, ast.Constant) and par.orelse.value is None
-        col.check(ok, R, q, k.loc(call), f"missing {nm} callback yields None, frames unchanged",
-                  norm_src(par) if par is not None else "", "callback-absent case is not `None`",
-                  stmt=f"none:{nm}")
-    # return value
-    rets = [n for n in own_nodes(k) if isinstance(n, ast.Return)]
-    ok = len(rets) == 1 and norm_src(rets[0].value) == f"{vals_map}[root]" and rets[0] in k.node.body
-    col.check(ok, R, q, k.loc(rets[0]) if rets else k.loc(), "returns the start node's value "
-              "after the loop", norm_src(rets[0]) if rets else "", "does not return vals[root]",
-              stmt="return")
-    # loop condition: runs until the work list is empty; no break
-    t = norm_src(loop.test)
-    ok = t in (f"len({stack}) != 0", f"len({stack}) > 0", stack, f"len({stack})") and \
-        not any(isinstance(x, (ast.Break, ast.Return)) for x in ast.walk(loop))
-    col.check(ok, R, q, k.loc(loop), "loop runs until the work list is empty (no early exit)", t,
-              f"loop condition `{t}` / early exit inside the loop", stmt="loop-cond")
-    # children map: key = parent id (2nd component), value = child id (1st component)
-    fors = [s for s in k.node.body if isinstance(s, ast.For)]
-    ok = False
-    detail = ""
-    if len(fors) == 1 and isinstance(fors[0].target, ast.Tuple) and len(fors[0].target.elts) == 2 \
-            and norm_src(fors[0].iter) == "zip(*topology)" and child_iter is not None:
-        a, b = [e.id for e in fors[0].target.elts]
-        cm = None
-        for n in ast.walk(child_iter):
-            if isinstance(n, ast.Name) and n.id not in (node_v,):
-                cm = n.id
-                break
-        apps = [n for n in ast.walk(fors[0]) if isinstance(n, ast.Call) and isinstance(n.func, ast.Attribute)
-                and n.func.attr == "append" and isinstance(n.func.value, ast.Subscript)]
-        ok = len(apps) == 1 and norm_src(apps[0].func.value.value) == cm \
-            and norm_src(apps[0].func.value.slice) == b and norm_src(apps[0].args[0]) == a \
-            and not any(isinstance(x, (ast.If, ast.Continue, ast.Break)) for x in ast.walk(fors[0]))
-        detail = norm_src(apps[0]) if apps else ""
-    col.check(ok, R, q, k.loc(fors[0]) if fors else k.loc(), "children map: parent id (2nd "
-              "topology component) -> child ids (1st component), every row, file order", detail,
-              "children map is not built as map[pid].append(id) for every (id, pid)", stmt="children-map")
-    ok = child_iter is not None and norm_src(child_iter).endswith(f".get({node_v}, [])")
-    col.check(ok, R, q, k.loc(child_iter) if child_iter is not None else k.loc(),
-              "children of a node are looked up under the node's own id", norm_src(child_iter) if child_iter is not None else "",
-              "child lookup key is not the current node", stmt="child-key")
+        col.unresolved(R, q, k.loc(), "the loop runs until the work list is empty", f"{len(whiles)} while loops", stmt="loop-exit")
 
 
 def forwarders(ctx, col):
     repo = ctx.repo
     R = "R-FWD"
     tt = repo.get_def("swcgeom.core.tree.Tree.traverse")
-    wrap = tt.nested.get("wrap")
-    if wrap is None:
-        raise AnalysisError("anchor-vanished: Tree.traverse.<locals>.wrap")
-    fw = wrap.nested.get("fn_wrapped")
-    ok = False
-    if fw is not None:
-        rets = [n for n in own_nodes(fw) if isinstance(n, ast.Return)]
-        first = fw.params[0] if fw.params else None
-        ok = len(rets) == 1 and isinstance(rets[0].value, ast.Call) and norm_src(rets[0].value.func) == "fn" \
-            and rets[0].value.args and norm_src(rets[0].value.args[0]) == f"self[{first}]" \
-            and any(isinstance(a, ast.Starred) for a in rets[0].value.args)
-    col.check(ok, R, wrap.qualname, wrap.loc(), "wrapper turns the node id into the node handle "
-              "of the same tree and forwards the remaining arguments and the result",
-              "", "wrapper does not call fn(self[idx], *args) and return its result", stmt="wrap")
-    # both callbacks go through wrap and are forwarded to the kernel
-    calls = [n for n in own_nodes(tt) if isinstance(n, ast.Call) and isinstance(n.func, ast.Name)
-             and n.func.id == "traverse"]
-    ok = False
-    if len(calls) == 1:
-        c = calls[0]
-        e, l = kwarg(c, "enter"), kwarg(c, "leave")
-        asg = [n for n in own_nodes(tt) if isinstance(n, ast.Assign) and isinstance(n.targets[0], ast.Tuple)
-               and [norm_src(x) for x in n.targets[0].elts] == ["enter", "leave"]]
-        ok = e is not None and l is not None and norm_src(e) == "enter" and norm_src(l) == "leave" \
-            and len(asg) == 1 and norm_src(asg[0].value) == "(wrap(enter), wrap(leave))" \
-            and any(k.arg is None for k in c.keywords) \
-            and norm_src(c.args[0]) == "topology"
-        topo = [n for n in own_nodes(tt) if isinstance(n, ast.Assign) and norm_src(n.targets[0]) == "topology"]
-        ok = ok and len(topo) == 1 and norm_src(topo[0].value) == "(self.id(), self.pid())"
-    col.check(ok, R, tt.qualname, tt.loc(), "enter->enter, leave->leave, both wrapped, topology = "
-              "(ids, parent ids), remaining options forwarded", "", "callbacks/topology are not "
-              "forwarded one-to-one to the kernel", stmt="forward")
+    col.text_group(R, tt.qualname, tt, [
+        ("wrapper turns the node id into the node handle of the same tree and forwards the remaining arguments and the result",
+         ["return fn(self[idx], *args, **kwargs)", "return fn(self.node(idx), *args, **kwargs)"], "wrap"),
+        ("an absent callback stays absent", ["if fn is None: return None"], "wrap-none"),
+        ("topology = (ids, parent ids) of this tree", ["topology = (self.id(), self.pid())"], "topology"),
+        ("enter->enter, leave->leave, both wrapped", ["enter, leave = wrap(enter), wrap(leave)"], "wrap-both"),
+        ("both callbacks and the remaining options are forwarded to the kernel and its result returned",
+         ["return traverse(topology, enter=enter, leave=leave, **kwargs)"], "forward"),
+    ], fixed=("enter", "leave", "traverse", "kwargs", "args"))
     nt = repo.get_def("swcgeom.core.tree.Tree.Node.traverse")
-    rets = [n for n in own_nodes(nt) if isinstance(n, ast.Return)]
-    ok = len(rets) == 1 and isinstance(rets[0].value, ast.Call) \
-        and norm_src(rets[0].value.func) == "self.attach.traverse" \
-        and kwarg(rets[0].value, "root") is not None and norm_src(kwarg(rets[0].value, "root")) in ("self.idx", "self.id") \
-        and any(k.arg is None for k in rets[0].value.keywords)
-    col.check(ok, R, nt.qualname, nt.loc(), "starts the owner's traversal at this node",
-              norm_src(rets[0].value) if rets else "", "does not forward root=self.idx", stmt="node-root")
-    # mode dispatch of swc_utils.traverse
+    col.text_group(R, nt.qualname, nt, [
+        ("starts the owner's traversal at this node",
+         ["return self.attach.traverse(root=self.idx, **kwargs)", "return self.attach.traverse(root=self.id, **kwargs)"], "node-root")],
+        fixed=("kwargs",))
     tr = repo.get_def(f"{BASE}.traverse")
-    calls = [n for n in own_nodes(tr) if isinstance(n, ast.Call) and dotted(n.func) == "_traverse_dfs"]
-    ok = len(calls) == 1 and norm_src(calls[0].args[0]) == "topology" and \
-        any(k.arg is None and norm_src(k.value) == "kwargs" for k in calls[0].keywords) and \
-        isinstance(repo.parent(calls[0]), ast.Return)
-    col.check(ok, R, tr.qualname, tr.loc(), "dispatches to the DFS kernel with all options and "
-              "returns its result", "", "kernel call does not forward topology/**kwargs or is not returned",
-              stmt="dispatch")
+    col.text_group(R, tr.qualname, tr, [
+        ("dispatches to the DFS kernel with all options and returns its result", ["return _traverse_dfs(topology, **kwargs)"], "dispatch")],
+        fixed=("topology", "kwargs", "_traverse_dfs"))
